@@ -18,7 +18,11 @@ WORDS_MB = [b'caf\xc3\xa9', b'\xe6\xbc\xa2\xe5\xad\x97', b'\xf0\x9f\x98\x80 ok',
 PATTERNS = [(b'hello', False), (b'h(el)lo', False), (b'(w)(or)ld', False), (b' hello', False), (b'HELLO', True), (b'o+', False),
             (b'^say', False), (b'(plain) (text)', False), (b'needle|foo', False), (b'z*', False), (b'caf(\xc3\xa9)', False),
             (b'\xe6\xbc\xa2(\xe5\xad\x97)', False), (b'(\xf0\x9f\x98\x80) ok', False), (b'(x)=(y)?', False), (b'(q)?hello', False),
-            (b'  +hello', False), (b'ok$', False)]
+            (b'  +hello', False), (b'ok$', False),
+            # matches that may span a line break ([[:space:]] matches a newline even with REG_NEWLINE): the group can sit
+            # on a later line than the start of the match
+            (b'([a-z]+)[[:space:]]+([a-z]+)', False), (b'o[[:space:]]+([a-z])', False), (b'[[:space:]]+(hello|world|say|foo)', False),
+            (b'(text|hello)[[:space:]]+[^[:space:]]+[[:space:]]+([^[:space:]]+)', False)]
 
 
 def width(b, loc):
@@ -203,14 +207,15 @@ def evaluate(rules, truth):
 
 def expected_pairs(ri, cand, loc):
     """the monitor's own rendering of one candidate: [(line number, key, quoted text, ^ column, $ column relative to the text)]
-    or None if a match spans lines"""
+    (a match that spans lines is rendered like any other: the line its first character is on is quoted, the markers
+    are placed by the display width of the matched text); None if a match begins with a line break"""
     key, v, groups = cand
     out = []
     for so, eo in groups:
         if so == eo or so < 0:
             continue
-        if b'\n' in v[so:eo]:
-            return None
+        if v[so:so + 1] == b'\n':
+            return None         # a match that BEGINS with a line break: which line is "its" line is not defined by the property
         ls = v.rfind(b'\n', 0, so) + 1
         le = v.find(b'\n', so)
         if le < 0:
